@@ -145,8 +145,12 @@ type c08Run struct {
 	nBlocked, nEvict, nReplace, nLoadFail, nMissClosed int
 }
 
+// c08Patience bounds the waits for a goroutine of the real cache to reach its next blocking point (it only has to be
+// scheduled): generous for a loaded machine, and a run stops after three scripts that ran into it.
+const c08Patience = 20 * time.Second
+
 func c08WaitFor(cond func() bool) bool {
-	deadline := time.Now().Add(30 * time.Second)
+	deadline := time.Now().Add(c08Patience)
 	for i := 0; !cond(); i++ {
 		if time.Now().After(deadline) {
 			return false
@@ -257,7 +261,7 @@ func (r *c08Run) settle() {
 					r.failed = fmt.Sprintf("Remove returned %v", err)
 					return
 				}
-			case <-time.After(30 * time.Second):
+			case <-time.After(c08Patience):
 				r.failed = fmt.Sprintf("Remove of height %d still blocked although entry %d has no reference", s.h, s.ent)
 				r.violation("remove-hangs", r.failed)
 				return
@@ -535,7 +539,7 @@ func TestVerifC08Cache(t *testing.T) {
 	}
 
 	root := r.Rand()
-	ncases := r.N(360, 4800)
+	ncases, aborted := r.N(360, 4800), 0
 	for i := 0; i < ncases; i++ {
 		seed := root.U64()
 		cap := 1 + i%3
@@ -545,6 +549,12 @@ func TestVerifC08Cache(t *testing.T) {
 		if run.failed != "" {
 			r.Count("cache_script", "aborted")
 			r.Violation("cache-script-aborted", run.failed, run.script)
+			// a script aborts when the real cache leaves the script's expectations, possibly after waiting out one of the
+			// harness's patience limits: a few of them are evidence enough, the rest of the run would only wait again
+			if aborted++; aborted >= 3 {
+				r.Set("cache_scripts_stopped_after", i+1)
+				break
+			}
 			continue
 		}
 		term := fmt.Sprintf("cc %s %s [%s]", c08Nat(cap), c08Nat(n), strings.Join(run.script.Steps, ";\n    "))
